@@ -224,7 +224,7 @@ PROPS = {
     'C20': {
         'level': 'exploration',
         'engine': 'confx',
-        'claim': 'Complete enumeration of a finite program family: 42 (entry point, argument position) pairs - every function of memory.h and array.h that reads, transfers or releases a guarded / unique / shared / weak pointer or an array object - x every object state (NULL / non-NULL; empty / owning / co-owned; empty / weak to live / weak to dead; empty / whole / slice) x copy kind (struct assignment, memcpy, relocation with the original storage scrubbed): the call on the stray copy must end in abort() (not return, not an assertion, not a sanitizer report), and the same call on the original object must still work. The table is cross-checked against the declarations gcc -aux-info finds in the two headers; declared entry points missing from the table are reported in the evidence. The converse (properly moved objects never abort) is decided by the same check: the C05 and C14 closure searches (ptr and array worlds) run with their no-unexpected-abort oracle attributed to C20, every interleaving of the C06 scheduler scenarios runs with abort() inside the library as the only oracle, and 65535 to 70000 simultaneous owners / weak references / array views of one allocation are created and released with the library functions only.',
+        'claim': 'Complete enumeration of a finite program family: 42 (entry point, argument position) pairs - every function of memory.h and array.h that reads, transfers or releases a guarded / unique / shared / weak pointer or an array object - x every object state (NULL / non-NULL; empty / owning / co-owned; empty / weak to live / weak to dead; empty / whole / slice) x copy kind (struct assignment, memcpy, relocation with the original storage scrubbed) x, for two-object calls, every state of the OTHER argument (empty; owning / weak to live memory / whole array; co-owned / weak to dead memory / slice; or the original the copy was made from): the call on the stray copy must end in abort() (not return, not an assertion, not a sanitizer report), and the same call on the original object must still work. The table is cross-checked against the declarations gcc -aux-info finds in the two headers; declared entry points missing from the table are reported in the evidence. The converse (properly moved objects never abort) is decided by the same check: the C05 and C14 closure searches (ptr and array worlds) run with their no-unexpected-abort oracle attributed to C20, every interleaving of the C06 scheduler scenarios runs with abort() inside the library as the only oracle, and 65535 to 70000 simultaneous owners / weak references / array views of one allocation are created and released with the library functions only.',
         'note': 'Documented non-aborting calls are excluded: *_init, cstl_guarded_ptr_set and the destination of cstl_guarded_ptr_copy only write the guard (re-stamping it), cstl_array_size never touches the pointer.',
         'technique': 'exhaustive enumeration of entry point x argument position x object state x copy kind with an abort/return oracle under ASan; explicit-state closure search and exhaustive interleaving exploration of properly moved pointers with a no-abort oracle',
         'jobs': [{'world': 'stray', 'src': 'worlds/stray_world.c', 'gen': 'lib/gen_decls.py', 'lib': ['memory.c', 'array.c'], 'flavours': RELDBG_ALWAYS}, {'world': 'ptr', 'src': 'worlds/ptr_world.c', 'lib': ['memory.c'], 'flavours': RELDBG_ALWAYS}, {'world': 'array', 'src': 'worlds/array_world.c', 'lib': ['array.c', 'memory.c'], 'flavours': RELDBG_ALWAYS}, {'world': 'c06', 'src': 'worlds/c06_world.c', 'lib': ['memory.c'], 'san': ['-g', '-fsanitize=thread'], 'wsan': ['-g'], 'extra_src': ['engine/sched.c'], 'link': ['-Wl,--wrap=malloc,--wrap=calloc,--wrap=realloc,--wrap=free,--wrap=abort,--wrap=sched_yield'], 'flavours': RELDBG_ALWAYS}, {'world': 'big', 'src': 'worlds/big_world.c', 'lib': ['bintree.c', 'rbtree.c', 'map.c', 'dlist.c', 'slist.c', 'vector.c', 'string.c', 'array.c', 'memory.c', 'heap.c', 'common.c'], 'unity': True, 'flavours': BOTH}],
